@@ -9,7 +9,7 @@ BUDGET = {
     "quick": dict(shards=16, cases=2400, deadline=70),
     "thorough": dict(shards=16, cases=48000, deadline=1200),
 }
-DECIDING = ["qua.read", "qua.write"]
+DECIDING = ["qua.read", "qua.write", "fileio.write_file", "fileio.read_file"]
 RULE = ("Generated .qua documents: lanes 1..8, StartTime / KeySounds / Bpm / Multiplier keys omitted in every combination, empty sections, "
         "hits only / holds only, float StartTimes, metadata strings needing YAML quoting (': # quotes leading space unicode yes/null/"
         "numeric-looking'); in-memory Quaver charts from rv/gen/charts.py incl. histories, and charts produced by OsuToQua / SMToQua / "
@@ -26,7 +26,7 @@ CONV = {"osu": "OsuToQua", "sm": "SMToQua", "bms": "BMSToQua", "o2j": "O2JToQua"
 
 def pinned(tier):
     repo = os.environ.get("VERIF_REPO", "/repo")
-    return [dict(cls="corpus", path=p) for p in sorted(glob.glob(os.path.join(repo, "rsc/maps/qua/*.qua")))]
+    return ([dict(cls="corpus", path=p) for p in sorted(glob.glob(os.path.join(repo, "rsc/maps/qua/*.qua")))]) + ([dict(cls="repo_test_suite", select=['tests/unit_tests/qua', 'tests/algorithm_tests/convert'])] if tier == "thorough" else [])
 
 
 def gen_doc(rng, cls):
@@ -102,6 +102,9 @@ def setup(ctx):
 
 
 def run(ctx, case):
+    if case.get("cls") == "repo_test_suite":
+        from rv.suite import run_repo_tests
+        return run_repo_tests(ctx, case.get("select"))
     import importlib
 
     from reamber.quaver.QuaMap import QuaMap
@@ -138,6 +141,10 @@ def run(ctx, case):
             out = m.write()
         except Exception:
             continue
+        if ctx.cur_k is not None and ctx.cur_k % 4 == 1:
+            from rv.monitors import fileio
+            fileio.check_write_file(ctx, "C06", m, kind="text")
+            fileio.check_read_file(ctx, "C06", QuaMap, out)
         try:
             m2 = QuaMap.read(out)      # read(write(x)): judged by the read monitor on the written text
             m2.write()                 # write(read(t)): judged by the write monitor
